@@ -339,7 +339,7 @@ func runC06(r *Rec) {
 	// ---------- rich histories (richGenerate): every module's messages, proposals that pass and are enacted, every
 	// lifecycle period crossed, absences / inactivation / evidence; every third one lets SlashValidator proposals pass
 	for h := 0; h < nRich; h++ {
-		o := RichOpts{NBlocks: nRichBlocks, NAcc: 10, NVal: 4, Custody: h % 3, Halting: h%3 == 2, Label: fmt.Sprintf("rich-%d", h)}
+		o := RichOpts{NBlocks: nRichBlocks, NAcc: 10, NVal: 4, Custody: h % 3, Halting: h%3 == 2, Label: fmt.Sprintf("rich-%d", h), CommitDelay: h%2 == 0}
 		hist := richGenerate(r, o)
 		obs, _ := c01Run(hist, o.NAcc, o.NVal, 0)
 		for b := range obs {
